@@ -554,6 +554,36 @@ package tacquito
 //@        && p.Header.SessionID == old(p.Header.SessionID) && p.Header.Flags == old(p.Header.Flags) && len(p.Body) == old(len(p.Body))
 
 // ---------------------------------------------------------------------------
+// client.go — the client side uses the same wrapper: one write per request (a second write
+// would obfuscate the already obfuscated body again, C03), and the reply is framed from
+// exactly the position the input stream had when Send was called (C05)
+// ---------------------------------------------------------------------------
+
+//@ func (c *Client) Send(p *Packet) (res *Packet, err error)
+//@   ghostset cwrites 0
+//@   requires c != nil && c.crypter != nil && c.crypter.Conn != nil && c.crypter.Reader != nil && !c.crypter.proxy
+//@   requires p != nil ==> p.Header != nil
+//@   requires p != nil ==> len(p.Body) <= 4294967295
+//@   requires[C05] ghost.sync == 1
+//@   requires[C17] ghost.armed == 1 || ghost.dead == 1
+//@   modifies p.Header.Length, p.Body[..], ghost.nwrites, ghost.written, ghost.md5acc, ghost.inPos, ghost.sync, ghost.armed, ghost.reads, ghost.cwrites
+//@   after[C03] crypter.write : ghost.cwrites = ghost.cwrites + 1
+//@   ensures[C03] ghost.cwrites == 1
+//@   ensures[C03] ghost.nwrites <= old(ghost.nwrites) + 2
+//@   ensures[C05] let p0 = old(ghost.inPos) in let L = instream(p0+8)*16777216 + instream(p0+9)*65536 + instream(p0+10)*256 + instream(p0+11) in
+//@        ((err == nil && res != nil) ==> (ghost.inPos == p0 + 12 + L && len(res.Body) == L))
+
+//@ func (c *Client) SendOnly(p *Packet) (err error)
+//@   ghostset cwrites 0
+//@   requires c != nil && c.crypter != nil && c.crypter.Conn != nil
+//@   requires p != nil ==> p.Header != nil
+//@   requires p != nil ==> len(p.Body) <= 4294967295
+//@   modifies p.Header.Length, p.Body[..], ghost.nwrites, ghost.written, ghost.md5acc, ghost.cwrites
+//@   after[C03] crypter.write : ghost.cwrites = ghost.cwrites + 1
+//@   ensures[C03] ghost.cwrites == 1
+//@   ensures[C05] ghost.inPos == old(ghost.inPos)
+
+// ---------------------------------------------------------------------------
 // handlers.go
 // ---------------------------------------------------------------------------
 // ghost.replies counts calls of Reply / ReplyWithContext (the "attempts" of C07);
@@ -566,7 +596,9 @@ package tacquito
 //@   taints[C18] r.crypter.secret 4
 //@   ensures[C18] untainted(err)
 //@   requires forall j int :: 0 <= j && j < len(r.writers) ==> r.writers[j] != nil
-//@   modifies r.header, ghost.nwrites, ghost.written, ghost.md5acc
+//@   modifies r.header, ghost.nwrites, ghost.written, ghost.md5acc, ghost.bodyOK
+//@   after[C06,C08] EncoderDecoder.MarshalBinary : ghost.bodyOK = (ret1 == nil ? 1 : 0)
+//@   ensures[C06,C08] ghost.bodyOK == 0 ==> (err != nil && r.header == old(r.header) && ghost.nwrites == old(ghost.nwrites))
 //@   ensures[C07] ghost.replies == old(ghost.replies) + 1
 //@   ensures[C06,C07] ghost.nwrites == old(ghost.nwrites) || ghost.nwrites == old(ghost.nwrites) + 1
 //@   ensures[C06,C07] err == nil ==> ghost.nwrites == old(ghost.nwrites) + 1
@@ -588,7 +620,7 @@ package tacquito
 //@   taints[C18] r.crypter.secret 4
 //@   ensures[C18] untainted(err)
 //@   requires forall j int :: 0 <= j && j < len(r.writers) ==> r.writers[j] != nil
-//@   modifies r.header, r.ctx, r.writers, ghost.nwrites, ghost.written, ghost.md5acc, ghost.replies
+//@   modifies r.header, r.ctx, r.writers, ghost.nwrites, ghost.written, ghost.md5acc, ghost.replies, ghost.bodyOK
 //@   ensures[C07] ghost.replies == old(ghost.replies) + 1
 //@   ensures[C06,C07] ghost.nwrites == old(ghost.nwrites) || ghost.nwrites == old(ghost.nwrites) + 1
 //@   ensures[C06,C07] err == nil ==> ghost.nwrites == old(ghost.nwrites) + 1
@@ -697,20 +729,20 @@ package tacquito
 //@   before[C07,C08] Handler.Handle : ghost.seqChecked == 1 && ghost.seqRejected == 0
 //@   before[C07,C08] sessions.get : arg0 == sessionProvider && arg1 == req.Header
 //@   before[C09] Handler.Handle : (ghost.gotH != nil ==> arg0 == ghost.gotH) && (ghost.gotH == nil ==> arg0 == h)
-//@   before[C09] Handler.Handle : typeOf(arg1) == *response && arg1.(*response) == resp
-//@   before[C09] Handler.Handle : fresh(resp)
-//@   before[C09] Handler.Handle : resp.header == req.Header && resp.next == nil
+//@   before[C08,C09] Handler.Handle : typeOf(arg1) == *response && arg1.(*response) == resp
+//@   before[C08,C09] Handler.Handle : fresh(resp)
+//@   before[C08,C09] Handler.Handle : resp.header == req.Header && resp.next == nil
 //@   before[C09] Handler.Handle : arg2.Header == req.Header
 //@   before[C09] Handler.Handle : arg2.Body == req.Body
 //@   before[C09] sessions.get : arg0 == sessionProvider && arg1 == req.Header
 //@   before[C09] sessions.set : arg0 == sessionProvider && arg1 == req.Header
-//@   before[C09] sessions.update : arg0 == sessionProvider && arg1.SessionID == req.Header.SessionID && arg2 == resp.next
-//@   before[C09] sessions.delete : arg0 == sessionProvider && arg1 == req.Header.SessionID
+//@   before[C08,C09] sessions.update : arg0 == sessionProvider && arg1.SessionID == req.Header.SessionID && arg2 == resp.next
+//@   before[C08,C09] sessions.delete : arg0 == sessionProvider && arg1 == req.Header.SessionID
 //@   requires s != nil && s.loggerProvider != nil && ctx != nil && h != nil
 //@   requires c != nil && c.Conn != nil && c.Reader != nil && !c.proxy
 //@   taints[C18] c.secret 4
 //@   requires[C05] ghost.sync == 1
-//@   modifies ghost.inPos, ghost.nwrites, ghost.written, ghost.md5acc, ghost.gauge, ghost.armed, ghost.dead, ghost.reads, ghost.handled, ghost.replies, ghost.closed, ghost.sync, ghost.hcalls, ghost.authorStatus, ghost.authenPass, ghost.acctStatus, ghost.sinkWrites, ghost.sinkAtReply, ghost.scopeArg, ghost.cmpOK, ghost.cmpCalls, ghost.lookups, ghost.lookedUp, ghost.lastJSON, ghost.rdFailed, ghost.gotH, ghost.seqRejected, ghost.seqChecked
+//@   modifies ghost.inPos, ghost.nwrites, ghost.written, ghost.md5acc, ghost.gauge, ghost.armed, ghost.dead, ghost.reads, ghost.handled, ghost.replies, ghost.closed, ghost.sync, ghost.hcalls, ghost.authorStatus, ghost.authenPass, ghost.acctStatus, ghost.sinkWrites, ghost.sinkAtReply, ghost.scopeArg, ghost.cmpOK, ghost.cmpCalls, ghost.lookups, ghost.lookedUp, ghost.lastJSON, ghost.bodyOK, ghost.rdFailed, ghost.gotH, ghost.seqRejected, ghost.seqChecked
 //@   ensures[C07,C17] ghost.closed == old(ghost.closed) + 1
 //@   ensures[C07] ghost.handled - old(ghost.handled) <= ghost.reads - old(ghost.reads)
 //@   ensures[C07] ghost.replies - old(ghost.replies) == ghost.handled - old(ghost.handled)
@@ -742,7 +774,7 @@ package tacquito
 //@   ensures[C18] true
 //@   requires s != nil && s.loggerProvider != nil && s.SecretProvider != nil && ctx != nil && conn != nil && !s.proxy
 //@   requires[C05] ghost.sync == 1
-//@   modifies s.waitGroup.active, ghost.inPos, ghost.nwrites, ghost.written, ghost.md5acc, ghost.gauge, ghost.armed, ghost.dead, ghost.reads, ghost.handled, ghost.replies, ghost.closed, ghost.wgDones, ghost.sync, ghost.hcalls, ghost.authorStatus, ghost.authenPass, ghost.acctStatus, ghost.sinkWrites, ghost.sinkAtReply, ghost.scopeArg, ghost.cmpOK, ghost.cmpCalls, ghost.lookups, ghost.lookedUp, ghost.lastJSON, ghost.rdFailed, ghost.gotH, ghost.seqRejected, ghost.seqChecked, ghost.admitted, ghost.pgets, ghost.admits
+//@   modifies s.waitGroup.active, ghost.inPos, ghost.nwrites, ghost.written, ghost.md5acc, ghost.gauge, ghost.armed, ghost.dead, ghost.reads, ghost.handled, ghost.replies, ghost.closed, ghost.wgDones, ghost.sync, ghost.hcalls, ghost.authorStatus, ghost.authenPass, ghost.acctStatus, ghost.sinkWrites, ghost.sinkAtReply, ghost.scopeArg, ghost.cmpOK, ghost.cmpCalls, ghost.lookups, ghost.lookedUp, ghost.lastJSON, ghost.bodyOK, ghost.rdFailed, ghost.gotH, ghost.seqRejected, ghost.seqChecked, ghost.admitted, ghost.pgets, ghost.admits
 //@   ensures[C17,C20] ghost.wgDones == old(ghost.wgDones) + 1
 //@   ensures[C07,C13,C17] ghost.closed == old(ghost.closed) + 1
 //@   ensures[C20] ghost.gauge == upd(old(ghost.gauge), waitgroupActive, old(ghost.gauge)[waitgroupActive] - 1)
